@@ -121,6 +121,7 @@ fn run_case(rep: &mut Report, r: &mut Rng, c: &Case) {
     let mut twin = Parser::new();
     let twin_out = twin.parse(&nmea_ref::mk(1, 1, None, c.payload, c.fill), c.decode);
     let mut prev = 0usize;
+    let mut group_lines: Vec<Vec<u8>> = Vec::new();
     let mut inter: Vec<&'static str> = Vec::new();
     let bounds: Vec<usize> = c.cuts.iter().cloned().chain(std::iter::once(c.payload.len())).collect();
     for (j, end) in bounds.iter().enumerate() {
@@ -133,6 +134,7 @@ fn run_case(rep: &mut Report, r: &mut Rng, c: &Case) {
         b.id = c.idtext.clone();
         let (chan, fill) = if c.dress { dress(r, &mut b, k < n) } else { (chan, fill) };
         let line = b.line();
+        group_lines.push(line.clone());
         if c.interleave && j > 0 {
             for _ in 0..r.below(4) {
                 let (l, d, cls) = inert_between(r, c.id, n, k);
@@ -223,6 +225,52 @@ fn run_case(rep: &mut Report, r: &mut Rng, c: &Case) {
                 }
             }
         }
+    }
+    // a second group right behind the first whose later lines are byte-for-byte the same lines
+    // (a receiver log replays them; all-zero tails are common) but whose first fragment differs:
+    // what is delivered and decoded is the second group, nothing remembered from the first
+    if c.decode && c.cuts[0] >= 2 && r.chance(1, 3) {
+        let mut p2: Vec<u8> = c.payload.to_vec();
+        // change one character of the first fragment (not the type character)
+        let i = r.usize(1, c.cuts[0] - 1);
+        p2[i] = if p2[i] == b'w' { b'0' } else { b'w' };
+        let mut b = Build::simple(n, 1, c.id, b"A", &p2[..c.cuts[0]], 0);
+        b.id = c.idtext.clone();
+        let mut twin2 = Parser::new();
+        let twin2_out = twin2.parse(&nmea_ref::mk(1, 1, None, &p2, c.fill), true);
+        let mut lines2 = vec![b.line()];
+        lines2.extend(group_lines.iter().skip(1).cloned());
+        let mut last = None;
+        for (j, l) in lines2.iter().enumerate() {
+            rep.eval();
+            last = Some(feed(&mut p, &mut log, l.clone(), j + 1 == lines2.len()));
+        }
+        let what = "second group sharing its later lines with the first";
+        match (last, twin2_out) {
+            (Some(Call::Panic(pi)), _) => {
+                rep.violation(PID, format!("panic@{}", pi.loc), format!("panic '{}' in the {}", pi.msg, what), || mon::replay_history(&log, c.kind));
+                return;
+            }
+            (Some(Call::Done(Outcome::Complete(s))), Call::Done(Outcome::Complete(t))) => {
+                if s.data != p2 {
+                    rep.violation(PID, "payload-not-concatenation".into(), format!("{}: delivered payload is not its own concatenation", what), || mon::replay_history(&log, c.kind));
+                    return;
+                }
+                if s.message != t.message || s.message_debug != t.message_debug {
+                    rep.violation(PID, "decoded-differs-from-unfragmented".into(), format!("{}: decoded {:?}, the same payload unfragmented decodes to {:?}", what, s.message_debug, t.message_debug), || mon::replay_history(&log, c.kind));
+                    return;
+                }
+            }
+            (Some(Call::Done(Outcome::Err(_))), Call::Done(Outcome::Err(_))) => {}
+            (Some(Call::Done(o)), Call::Done(t)) => {
+                if o.is_ok() != t.is_ok() {
+                    rep.violation(PID, "decoded-differs-from-unfragmented".into(), format!("{}: group returned {}, unfragmented twin {}", what, o.kind(), t.kind()), || mon::replay_history(&log, c.kind));
+                    return;
+                }
+            }
+            _ => {}
+        }
+        rep.count("second-groups-sharing-lines");
     }
     let idc = match c.id {
         None => "none",
